@@ -127,7 +127,13 @@ def gen_plans(chk, stride, big):
 # ------------------------------------------------------------------------------------------
 # driver runs with crash / hang recovery
 # ------------------------------------------------------------------------------------------
-def run_resumable(cmd_prefix, n_items, timeout, per_item_key, max_incidents=400):
+def generous(base_s):
+    """A wall-clock limit for RE-CONFIRMING a watchdog trip: >= 5x the original, doubled on a busy machine."""
+    busy = os.getloadavg()[0] > (os.cpu_count() or 1)
+    return base_s * 5 * (2 if busy else 1)
+
+
+def run_resumable(cmd_prefix, n_items, timeout, per_item_key, max_incidents=400, env=None):
     """Runs `cmd_prefix + [skip]`; on crash ({"crash":i} + exit 42), hang ({"hang":i} + exit 43) or any
     other death resumes after the culprit. Returns (lines, incidents {index: what})."""
     lines = []
@@ -135,7 +141,8 @@ def run_resumable(cmd_prefix, n_items, timeout, per_item_key, max_incidents=400)
     skip = 0
     while skip < n_items:
         try:
-            p = subprocess.run(cmd_prefix + [str(skip)], stdout=subprocess.PIPE, stderr=subprocess.PIPE, timeout=timeout, text=True, errors="replace")
+            p = subprocess.run(cmd_prefix + [str(skip)], stdout=subprocess.PIPE, stderr=subprocess.PIPE, timeout=timeout, text=True, errors="replace",
+                               env=dict(os.environ, **(env or {})))
             out, rc, err = p.stdout, p.returncode, p.stderr
         except subprocess.TimeoutExpired as e:
             out = e.stdout.decode("utf-8", "replace") if isinstance(e.stdout, bytes) else (e.stdout or "")
@@ -170,7 +177,7 @@ def run_resumable(cmd_prefix, n_items, timeout, per_item_key, max_incidents=400)
     return lines, incidents
 
 
-def run_stream(chk, bindir, plans, nproc=4):
+def run_stream(chk, bindir, plans, nproc=4, watchdog_s=None, max_incidents=2):
     n = len(plans)
     nproc = max(1, min(nproc, n // 8 or 1))
     # round-robin: the enumeration order puts all the big TCP transfers at the end
@@ -182,7 +189,8 @@ def run_stream(chk, bindir, plans, nproc=4):
         wd = os.path.join(chk.work, "sock%d" % k)
         shutil.rmtree(wd, ignore_errors=True)
         os.makedirs(wd)
-        lines, inc = run_resumable([os.path.join(bindir, "netops"), "stream", path, wd], len(index[k]), 1800, "id", max_incidents=2)
+        lines, inc = run_resumable([os.path.join(bindir, "netops"), "stream", path, wd], len(index[k]), 3600, "id", max_incidents=max_incidents,
+                                   env={"VERIF_WATCHDOG_S": str(watchdog_s)} if watchdog_s else None)
         shutil.rmtree(wd, ignore_errors=True)
         return k, lines, inc
     conns = [None] * n
@@ -195,6 +203,56 @@ def run_stream(chk, bindir, plans, nproc=4):
             for i, w in inc.items():
                 incidents[index[k][i]] = w
     return conns, incidents
+
+
+def reconfirm_stream(chk, bindir, plans, conns, incidents):
+    """A watchdog trip ("no call completed for 8 s") rests on the wall clock: before it becomes a violation the plan is
+    re-run ALONE (nothing else of the check is running any more) with a limit >= 5x as large (more on a busy
+    machine); only a plan that fails to return in 2 of 2 re-runs is reported.  Trips that do not reproduce are
+    recorded (`watchdog_trips_not_reproduced`), their connections and the plans skipped after them are run and judged."""
+    confirmed = {}
+    not_reproduced = []
+    not_rechecked = []
+    limit = generous(8)
+    for k, what in sorted(incidents.items()):
+        if what != "timedout":
+            confirmed[k] = what             # a crash is not a wall-clock verdict
+            continue
+        if any(w == "timedout" for w in confirmed.values()):
+            not_rechecked.append(plans[k]["klass"])      # one confirmed hang is enough for the verdict
+            continue
+        again = 0
+        last = None
+        for _ in range(2):
+            c2, inc2 = run_stream(chk, bindir, [plans[k]], nproc=1, watchdog_s=limit)
+            if inc2:
+                again += 1
+            else:
+                last = c2[0]
+                break
+        if again == 2:
+            confirmed[k] = what
+        else:
+            conns[k] = last
+            not_reproduced.append({"plan": plans[k]["klass"], "what": what, "limit_s": limit})
+    if not any(w == "timedout" for w in confirmed.values()):
+        todo = [k for k, c in enumerate(conns) if c is None and k not in confirmed]
+        if todo:                            # plans skipped after the (false) trips
+            c2, inc2 = run_stream(chk, bindir, [plans[k] for k in todo], nproc=2, watchdog_s=limit, max_incidents=1)
+            for i, k in enumerate(todo):
+                conns[k] = c2[i]
+            for i, what in inc2.items():    # a trip in this pass: the same rule, alone, twice
+                k = todo[i]
+                r = [run_stream(chk, bindir, [plans[k]], nproc=1, watchdog_s=limit) for _ in range(2)]
+                if all(x[1] for x in r):
+                    confirmed[k] = what
+                else:
+                    conns[k] = next(x[0][0] for x in r if not x[1])
+                    not_reproduced.append({"plan": plans[k]["klass"], "what": what, "limit_s": limit})
+    chk.extra["watchdog_trips_not_reproduced"] = {"count": len(not_reproduced), "cases": not_reproduced[:10]}
+    if not_rechecked:
+        chk.extra["watchdog_trips_not_rechecked_after_a_confirmed_hang"] = not_rechecked[:10]
+    return confirmed
 
 
 def norm_events(evs):
@@ -451,9 +509,16 @@ def finish_racers(chk, proc):
         out, err = proc.communicate(timeout=600)
     except subprocess.TimeoutExpired:
         proc.kill()
-        chk.violate({"part": "race", "op": "accept_to/read_to", "why": "timedout"},
-                    "a timed accept/read with several waiters on one socket never returned", {"mode": "racers"})
-        return
+        args = proc.args
+        try:        # the wall-clock verdict is re-confirmed: the same run once more, alone, twice the time
+            p2 = subprocess.run(args, stdout=subprocess.PIPE, stderr=subprocess.PIPE, text=True, timeout=generous(240))
+            out, err = p2.stdout, p2.stderr
+            proc = p2
+            chk.extra["racers_timeout_not_reproduced"] = True
+        except subprocess.TimeoutExpired:
+            chk.violate({"part": "race", "op": "accept_to/read_to", "why": "timedout"},
+                        "a timed accept/read with several waiters on one socket never returned (2 of 2 runs)", {"mode": "racers"})
+            return
     shutil.rmtree(os.path.join(chk.work, "racers"), ignore_errors=True)
     recs = [v for v in (json.loads(l) for l in out.splitlines() if l.startswith("{")) if v.get("ev") == "race"]
     if proc.returncode != 0 or not recs:
@@ -484,14 +549,14 @@ def finish_racers(chk, proc):
     chk.extra["several_waiters_on_one_socket"] = dict(sorted(hist.items()))
 
 
-def run_tryops(chk, bindir):
+def run_tryops(chk, bindir, hang_s=None, probe=False):
     wd = os.path.join(chk.work, "tryops")
     shutil.rmtree(wd, ignore_errors=True)
     os.makedirs(wd)
     log = os.path.join(wd, "strace.log")
     cmd = ["strace", "-f", "-s", "200", "-o", log, "-e", "trace=network,desc,ppoll,poll,select,pselect6,epoll_wait,epoll_pwait,nanosleep,clock_nanosleep,futex,pause",
            os.path.join(bindir, "netops"), "tryops", wd]
-    p = core.run_cmd(cmd, check=False, timeout=120)
+    p = core.run_cmd(cmd, check=False, timeout=600, env={"VERIF_TRY_HANG_S": str(hang_s)} if hang_s else None)
     if p.returncode != 0:
         # a try_* call that blocks for ever shows up as a timeout of this command -> ToolError above; other failures:
         raise core.ToolError("strace/tryops failed rc=%d: %s" % (p.returncode, p.stderr[-1500:]))
@@ -520,6 +585,15 @@ def run_tryops(chk, bindir):
         recs.append({"name": r["name"], "res": r["res"], "nonblock": bool(r["nonblock"]), "syscalls": windows[r["name"]]})
     shutil.rmtree(wd, ignore_errors=True)
     path = os.path.join(chk.work, "tryops.ndjson")
+    if hang_s is None and any(r["res"] == "hang" for r in recs):
+        # "did not come back within 3 s" rests on the wall clock: twice more, alone, with a limit >= 5x as large
+        r1 = run_tryops(chk, bindir, hang_s=generous(3), probe=True)
+        if not any(r["res"] == "hang" for r in r1):
+            chk.extra["try_hang_not_reproduced"] = True
+            return r1
+        return run_tryops(chk, bindir, hang_s=generous(3) + 1)
+    if probe:
+        return recs
     core.write_ndjson(path, recs)
     res = core.run_tlc("StreamTry.tla", "StreamTry.cfg", workers=1, env={"TRACE": path}, timeout=300)
     core.tlc_must_pass(res, "StreamTry")
@@ -552,6 +626,14 @@ def run(tier):
     # ---- 2. transfers
     plans = gen_plans(chk, 199 if tier == "quick" else 61, 4 if tier == "quick" else 5)
     conns, incidents = run_stream(chk, bindir, plans)
+    if incidents:
+        # let the background jobs finish first: the re-runs must be alone
+        finish_racers(chk, racers)
+        racers = None
+        fut_stream.result()
+        incidents = reconfirm_stream(chk, bindir, plans, conns, incidents)
+    else:
+        chk.extra["watchdog_trips_not_reproduced"] = {"count": 0, "cases": []}
     acc, rejected, frontier = judge_stream(chk, conns, plans)
     for r in rejected:
         sig, what = explain_conn(r, frontier.get(r["id"]))
@@ -561,7 +643,7 @@ def run(tier):
     judge_ctors(chk, bindir, conns, plans)
     for k, what in incidents.items():
         chk.violate({"part": "stream", "fam": plans[k]["fam"], "op": "plan", "why": what, "acc": plans[k]["klass"].get("acc"), "con": plans[k]["klass"].get("con")},
-                    "a call of the code under test did not return (%s: no call completed for 8 s, plan watchdog) while running plan %s" % (what, json.dumps(plans[k]["klass"])), {"mode": "stream", "plan": plans[k], "incident": what})
+                    "a call of the code under test did not return (%s: no call completed for 8 s; re-confirmed alone, 2 of 2 re-runs with a limit of 40 s or more) while running plan %s" % (what, json.dumps(plans[k]["klass"])), {"mode": "stream", "plan": plans[k], "incident": what})
     nev = 0
     for k, c in enumerate(conns):
         if c is None:
@@ -625,7 +707,8 @@ def run(tier):
     # ---- 5. try_* never block (structural)
     run_tryops(chk, bindir)
 
-    finish_racers(chk, racers)
+    if racers is not None:
+        finish_racers(chk, racers)
     res = fut_stream.result()          # the exhaustive run of the design went on in the background
     core.tlc_must_pass(res, "Stream")
     chk.add_tlc(res)
